@@ -6,6 +6,7 @@ import (
 	"encoding/json"
 	"fmt"
 	"os"
+	"sync/atomic"
 	"time"
 
 	"verif.local/simrt"
@@ -39,6 +40,14 @@ type WorkerResult struct {
 	Distinct  string                    `json:"distinct_file"`
 	Digest    string                    `json:"event_log_digest"`
 }
+
+// watchdog state: when the current unit of work (one schedule of one case, or
+// one shrink candidate) started.
+var caseStart atomic.Int64
+var caseIdx atomic.Uint64
+
+// Touch tells the watchdog that progress is being made.
+func Touch() { caseStart.Store(time.Now().UnixNano()) }
 
 func newCtx(st *Stats, schedRoot uint64, nsched int) *Ctx {
 	return &Ctx{St: st, schedRoot: schedRoot, nsched: nsched, forceMode: -1}
@@ -93,6 +102,7 @@ func Shrink(p Property, c Case, want Violation, schedRoot uint64, nsched int, bu
 	scratch := NewStats()
 	try := func(cand Case, force int, replay [][]simrt.Ev) (Violation, *Ctx, bool) {
 		used++
+		Touch()
 		ctx := newCtx(scratch, schedRoot, nsched)
 		ctx.forceMode = force
 		ctx.Record = true
@@ -201,7 +211,21 @@ func Worker(p Property, tier string, root, lo, hi, stride uint64, deadline time.
 	if progressPath != "" {
 		prog, _ = os.Create(progressPath)
 	}
+	// watchdog: a single case that runs for minutes of wall time is stuck in code
+	// the step budget cannot see; dying lets the parent re-run that index and
+	// report it as a crash that reproduces (or as infrastructure trouble if not)
+	go func() {
+		for {
+			time.Sleep(2 * time.Second)
+			if st := caseStart.Load(); st != 0 && time.Since(time.Unix(0, st)) > 180*time.Second {
+				fmt.Fprintf(os.Stderr, "watchdog: case %d of %s has been running for 3 minutes; giving up on this worker\n", caseIdx.Load(), p.ID())
+				os.Exit(3)
+			}
+		}
+	}()
 	for idx := lo; idx < hi; idx += stride {
+		caseIdx.Store(idx)
+		caseStart.Store(time.Now().UnixNano())
 		if !deadline.IsZero() && idx%8 == lo%8 && time.Now().After(deadline) {
 			res.Truncated = true
 			break
